@@ -13,7 +13,7 @@ from sa.report import Check, Site
 from sa.pathsum import PathSum, Summary
 
 from .c03 import argmap, calls, expect
-from .util import args_of, eq_branches
+from .util import args_of, eq_branches, ev_args
 
 
 def run(repo: Repo, chk: Check) -> None:
@@ -69,7 +69,7 @@ def algorithm_tables(repo: Repo, chk: Check) -> None:
             chk.ob("O1", Site.of(f, construct=f"{f.name}: branch for {OID}"), len(paths) >= 1 and set(br) == {OID}, f"every returning path has tested algorithm == {OID}" if set(br) == {OID} else f"returning paths are guarded by {sorted(br)}")
             for ps in paths:
                 cs = ps.calls(prim)
-                ok = len(cs) == 1 and [ps.text(a) for a in t.cast(ast.Call, cs[0].tree).args] == ["kek", "value"] and not t.cast(ast.Call, cs[0].tree).keywords
+                ok = len(cs) == 1 and [ps.text(a) for a in list(ev_args(repo, f, cs[0]).values())] == ["kek", "value"]
                 chk.ob("O1", Site.of(f, cs[0].node if cs else None, None if cs else prim), ok, f"{prim}(kek, value)" if ok else f"{f.name} does not call {prim}(kek, value) on the {OID} path")
                 okr = bool(cs) and ps.key(ps.value) == ps.key(cs[0].tree)
                 chk.ob("O1", Site.of(f, ps.exit_node, None if ps.exit_node is not None else "return"), okr, "returns the primitive's result")
@@ -87,7 +87,8 @@ def algorithm_tables(repo: Repo, chk: Check) -> None:
                 chk.ob("O1", Site.of(f, construct=f"cipher.{meth}"), False, f"{f.name} has {len(cs)} {meth} calls on the {GCM} path")
                 continue
             c = t.cast(ast.Call, cs[0].tree)
-            sig = (ps.text(t.cast(ast.Attribute, c.func).value), tuple(ps.text(a) for a in c.args), tuple((k.arg, ps.text(k.value)) for k in c.keywords))
+            ca = ev_args(repo, f, cs[0])
+            sig = (ps.text(t.cast(ast.Attribute, c.func).value), tuple(ps.text(ca.get(k)) for k in ("nonce", "data", "associated_data")), ())
             sigs.append(sig)
             chk.ob("O1", Site.of(f, ps.exit_node, None if ps.exit_node is not None else "return"), ps.key(ps.value) == ps.key(c), "returns the AEAD result")
     want = ("AESGCM(cek)", ("ASN1Reader(parameters).read_sequence().read_octet_string()", "value", "None"), ())
@@ -179,15 +180,20 @@ def parameter_identity(repo: Repo, chk: Check) -> None:
 def key_position(repo: Repo, chk: Check) -> None:
     nk = repo.method("_gkdi.GroupKeyEnvelope", "new_kek")
     chk.analysed(nk)
-    ki = calls(nk, "KeyIdentifier")
-    if len(ki) != 1:
-        raise AnalysisError("new_kek: KeyIdentifier construction changed")
-    kws = {k.arg: unparse(k.value) for k in ki[0].keywords if k.arg}
     want = {"flags": "self.flags", "l0": "self.l0", "l1": "self.l1", "l2": "self.l2", "root_key_identifier": "self.root_key_identifier", "domain_name": "self.domain_name", "forest_name": "self.forest_name", "version": "1"}
-    expect(chk, "O3", nk, ki[0], kws, want, "key identifier copies the envelope's position role by role")
-    rets = [n for n in body_nodes(nk.node) if isinstance(n, ast.Return)]
-    ok = len(rets) == 1 and unparse(rets[0].value) == "(kek, key_identifier)"
-    chk.ob("O3", Site.of(nk, rets[0] if rets else None, None if rets else "return"), ok, "returns (kek, identifier)")
+    summ = Summary(nk, ["self"])
+    if not summ.returning():
+        raise AnalysisError("new_kek: no returning path")
+    for ps in summ.returning():
+        ki = [c for c in ps.calls("KeyIdentifier") if ps.text(t.cast(ast.Call, c.tree).func) == "KeyIdentifier"]
+        if len(ki) != 1:
+            chk.ob("O3", Site.of(nk, ps.exit_node, "KeyIdentifier"), False, "a returning path of new_kek does not build exactly one KeyIdentifier")
+            continue
+        kws = {k: ps.text(v) for k, v in ev_args(repo, nk, ki[0]).items()}
+        expect(chk, "O3", nk, t.cast(ast.Call, ki[0].node), kws, want, "key identifier copies the envelope's position role by role")
+        v = ps.value
+        ok = isinstance(v, ast.Tuple) and len(v.elts) == 2 and ps.key(v.elts[1]) == ps.key(ki[0].tree)
+        chk.ob("O3", Site.of(nk, ps.exit_node, None if ps.exit_node is not None else "return"), ok, "returns (kek, identifier)")
     # the envelope built from the cache for 'now' (shared with C09-O4)
     from .c09 import run as c09_run
 
